@@ -817,7 +817,7 @@ impl ParserListener for Screen {
     }
 
     fn cursor_to_column(&mut self, character: Option<u32>) {
-        self.cursor.x = character.unwrap_or(1) - 1;
+        self.cursor.x = character.unwrap_or(1).saturating_sub(1);
         self.ensure_hbounds();
     }
 
@@ -1020,7 +1020,7 @@ impl ParserListener for Screen {
     /// # Parameters
     /// - `line`: Line number to move the cursor to.
     fn cursor_to_line(&mut self, line: Option<u32>) {
-        self.cursor.y = line.unwrap_or(1) - 1;
+        self.cursor.y = line.unwrap_or(1).saturating_sub(1);
 
         // If origin mode (DECOM) is set, line numbers are relative to
         // the top scrolling margin.
